@@ -194,6 +194,7 @@ class C07(object):
             # the grains move between two assignments (refinement, set_ubi), as in the makemap sequence
             # refine -> save -> assign again: the second assignment must use the grains as they are then
             desc["via_refinepositions"] = rnd.choice([0, 0, 0, 1, 3]) if (ngr and n >= 3) else 0
+            desc["after_assign"] = rnd.choice([None, "refineubis", "gof", "both"])
             if rnd.random() < 0.4:
                 # the geometry was something else when the object assigned before (a parameter file loaded later, a fitted
                 # tilt): the assignment that counts is done with the parameters as they are then
@@ -557,9 +558,40 @@ class C07(object):
                                 refine_layout_fail = "the matrix refine() returned for one grain changed when refine() was called for the next grain"
                 except Exception:
                     pass
+        lab = np.asarray(rg.scandata["s"].labels).astype(int).copy()
+        drl = np.asarray(rg.scandata["s"].drlv2).copy()
+        later_fail = None
+        if ngr and n >= 3 and not refine_failed:
+            # what follows an assignment in the makemap story: the per-grain peak counts are the histogram of the labels, also after the
+            # matrices were refined with the assignment kept; and the cost function of the parameter fit gives the same value for the
+            # same arguments each time it is asked
+            with contextlib.redirect_stdout(io.StringIO()):
+                def counts_():
+                    for j_, nm_ in enumerate(names):
+                        g_ = rg.grains.get((nm_, "s"))
+                        if g_ is not None and hasattr(g_, "npks") and int(g_.npks) != int((lab == nm_).sum()):
+                            return "grain %s: npks is %d, %d peaks carry its label" % (nm_, int(g_.npks), int((lab == nm_).sum()))
+                    return None
+                later_fail = counts_()
+                if later_fail is None and desc.get("after_assign") in ("refineubis", "both"):
+                    try:
+                        rg.refineubis(quiet=True)
+                        later_fail = counts_()
+                        if later_fail:
+                            later_fail = "after refineubis(), " + later_fail
+                    except Exception:
+                        pass
+                if later_fail is None and desc.get("after_assign") in ("gof", "both"):
+                    try:
+                        rg.parameterobj.varylist = []
+                        rg.grains_to_refine = list(rg.grains.keys())
+                        v1_ = rg.gof([])
+                        v2_ = rg.gof([])
+                        if np.isfinite(v1_) and np.isfinite(v2_) and abs(v1_ - v2_) > 1e-9 * max(1.0, abs(v1_)):
+                            later_fail = "gof() with the same arguments gives %.12g, then %.12g" % (v1_, v2_)
+                    except Exception:
+                        pass
         st = sim.stats()
-        lab = np.asarray(rg.scandata["s"].labels).astype(int)
-        drl = np.asarray(rg.scandata["s"].drlv2)
         tpg = np.asarray(rg.scandata["s"].tth_per_grain, float) if "tth_per_grain" in rg.scandata["s"].titles else None
         epg = np.asarray(rg.scandata["s"].eta_per_grain, float) if "eta_per_grain" in rg.scandata["s"].titles else None
         byname = {nm: order[j] for j, nm in enumerate(names)}
@@ -583,6 +615,8 @@ class C07(object):
             k = int(np.argmax((np.abs(drl - mbest) > 1e-9) & ~amb))
             viol = {"class": "wrong-error", "key": desc["entry"] + ":wrong-error",
                     "detail": "assignlabels: peak %d stores error %.12g, minimum over grains is %.12g" % (k, drl[k], mbest[k])}
+        if viol is None and later_fail:
+            viol = {"class": "history-dependent", "key": desc["entry"] + ":after-assignment", "detail": later_fail}
         if viol is None and refine_layout_fail:
             viol = {"class": "raises" if " raises " in refine_layout_fail else "refine-result-differs", "key": desc["entry"] + ":refine-layout",
                     "detail": refine_layout_fail}
@@ -607,6 +641,7 @@ class C07(object):
         meas = enginea.run_measures(st, cfg)
         meas["route"] = {"assign": 1}
         meas["assignments_after_the_grains_moved"] = 1 if desc.get("assign_history") else 0
+        meas["refineubis/gof_after_the_assignment"] = {str(desc.get("after_assign")): 1}
         meas["assignments_after_a_parameter_changed"] = 1 if desc.get("pars_history") else 0
         meas["grain_names_not_0..n-1"] = 1 if desc.get("grain_names") else 0
         meas["assignment_via_refinepositions"] = 1 if (desc.get("via_refinepositions") and not desc.get("assign_history")) else 0
